@@ -9,6 +9,7 @@ package patchvalidator
 import (
 	"encoding/json"
 	"fmt"
+	"strconv"
 	"strings"
 
 	jsonpatch "github.com/evanphx/json-patch"
@@ -81,7 +82,7 @@ func validateJSONPatches(patches []byte) error {
 
 			// copying or moving a location into one of its own children makes the patch library
 			// build a cyclic document (RFC 6902: 'from' must not be a proper prefix of 'path')
-			if strings.HasPrefix(path, from+"/") {
+			if isProperPrefix(pointerTokens(from), pointerTokens(path)) {
 				return fmt.Errorf("%s: cannot copy or move '%s' into its own child '%s'", patch.JSONPatch, from, path)
 			}
 		}
@@ -107,4 +108,41 @@ func validateJSONPointer(pointer string) error {
 	}
 
 	return nil
+}
+
+// pointerTokens splits a JSON pointer into its reference tokens the way the patch library reads them:
+// '~1' and '~0' are unescaped, and a token that is a number is an array index however it is spelled
+// ('+0', '00' and '0' name the same element).
+func pointerTokens(pointer string) []string {
+	if pointer == "" {
+		return nil
+	}
+
+	tokens := strings.Split(pointer, "/")[1:]
+	unescape := strings.NewReplacer("~1", "/", "~0", "~")
+
+	for i, token := range tokens {
+		token = unescape.Replace(token)
+		if n, err := strconv.Atoi(token); err == nil {
+			token = strconv.Itoa(n)
+		}
+
+		tokens[i] = token
+	}
+
+	return tokens
+}
+
+func isProperPrefix(prefix, tokens []string) bool {
+	if len(prefix) >= len(tokens) {
+		return false
+	}
+
+	for i, token := range prefix {
+		if tokens[i] != token {
+			return false
+		}
+	}
+
+	return true
 }
